@@ -1138,6 +1138,108 @@ pub mod fasta {
         assert(ls.push(x).drop_last() =~= ls);
     }
 
+    // ---- C13: the raw sequence and the sequence lines differ only by line terminators -----------------------------------
+    /// every LF of b in [i, j) is listed in lfs(b, i, j)
+    proof fn lemma_lfs_complete(b: Seq<u8>, i: int, j: int, x: int)
+        requires 0 <= i <= x < j <= b.len(), b[x] == 10u8
+        ensures exists|k: int| 0 <= k < lfs(b, i, j).len() && #[trigger] lfs(b, i, j)[k] == x
+        decreases j - i
+    {
+        if x == j - 1 {
+            let k = lfs(b, i, j - 1).len() as int;
+            assert(lfs(b, i, j)[k] == x);
+        } else {
+            lemma_lfs_complete(b, i, j - 1, x);
+            let k = choose|k: int| 0 <= k < lfs(b, i, j - 1).len() && #[trigger] lfs(b, i, j - 1)[k] == x;
+            assert(lfs(b, i, j)[k] == x);
+        }
+    }
+    /// the pieces of s between LFs from offset i on, each without one trailing CR, concatenated
+    pub open spec fn unwrap_lines(s: Seq<u8>, i: int) -> Seq<u8>
+        decreases s.len() - i via unwrap_lines_dec
+    {
+        if i < 0 || i > s.len() { Seq::<u8>::empty() } else {
+            let k = nl(s, i);
+            trim(s.subrange(i, k)) + (if k < s.len() { unwrap_lines(s, k + 1) } else { Seq::<u8>::empty() })
+        }
+    }
+    #[via_fn]
+    proof fn unwrap_lines_dec(s: Seq<u8>, i: int) { if 0 <= i <= s.len() { lemma_nl_bounds(s, i); } }
+    proof fn lemma_concat_cons(x: Seq<u8>, rest: Seq<Seq<u8>>)
+        ensures concat(seq![x] + rest) == x + concat(rest)
+        decreases rest.len()
+    {
+        let all = seq![x] + rest;
+        if rest.len() == 0 {
+            assert(all.drop_last() =~= Seq::<Seq<u8>>::empty());
+            assert(concat(all) =~= x + concat(rest));
+        } else {
+            assert(all.drop_last() =~= seq![x] + rest.drop_last());
+            lemma_concat_cons(x, rest.drop_last());
+            assert(all.last() == rest.last());
+            assert(concat(rest) == concat(rest.drop_last()) + rest.last());
+            assert(concat(all) == concat(all.drop_last()) + all.last());
+            assert(concat(all) =~= x + concat(rest));
+        }
+    }
+    impl BufferPosition {
+        /// the raw extent of the sequence: from the byte after the header line's LF to the end of the last line (seq() returns it trimmed)
+        spec fn rawext_v(&self, b: Seq<u8>) -> Seq<u8> { b.subrange(self.l()[0] + 1, self.l().last()) }
+        /// no LF strictly between two consecutive stored offsets
+        proof fn lemma_no_lf_between(&self, b: Seq<u8>, i: int, x: int)
+            requires self.rwf(b), 0 <= i < self.l().len() - 1, self.l()[i] < x < self.l()[i + 1]
+            ensures b[x] != 10u8
+        {
+            self.lemma_offsets(b);
+            let sp = self.l();
+            let e = sp.last();
+            let ls = lfs(b, self.start as int, e);
+            lemma_lfs_bounds(b, self.start as int, e);
+            if b[x] == 10u8 {
+                lemma_lfs_complete(b, self.start as int, e, x);
+                let k = choose|k: int| 0 <= k < ls.len() && #[trigger] ls[k] == x;
+                assert(sp[k] == ls[k]);
+                if k <= i { if k < i { assert(sp[k] < sp[i]); } } else { if k > i + 1 { assert(sp[i + 1] < sp[k]); } }
+            }
+        }
+        /// from line j on: unwrapping the raw extent gives the concatenation of the remaining lines
+        proof fn lemma_raw_from(&self, b: Seq<u8>, j: int)
+            requires self.rwf(b), 0 <= j < self.nlines()
+            ensures unwrap_lines(self.rawext_v(b), self.l()[j] - self.l()[0]) == concat(self.lines_v(b).subrange(j, self.nlines()))
+            decreases self.nlines() - j
+        {
+            self.lemma_offsets(b);
+            let sp = self.l();
+            let n = self.nlines();
+            let x = self.rawext_v(b);
+            let base = sp[0] + 1;
+            let i0 = sp[j] + 1 - base;            // start of line j inside x
+            let i1 = sp[j + 1] - base;            // its end inside x
+            assert forall|t: int| i0 <= t < i1 implies x[t] != 10u8 by { self.lemma_no_lf_between(b, j, base + t); }
+            if j + 1 < n { assert(x[i1] == b[sp[j + 1]]); }
+            lemma_nl_is(x, i0, i1);
+            assert(x.subrange(i0, i1) =~= b.subrange(sp[j] + 1, sp[j + 1]));
+            let rest = self.lines_v(b).subrange(j + 1, n);
+            assert(self.lines_v(b).subrange(j, n) =~= seq![self.line_v(b, j)] + rest);
+            lemma_concat_cons(self.line_v(b, j), rest);
+            if j + 1 < n {
+                self.lemma_raw_from(b, j + 1);
+            } else {
+                assert(rest =~= Seq::<Seq<u8>>::empty());
+                assert(concat(rest) =~= Seq::<u8>::empty());
+            }
+        }
+        /// C13: removing the line terminators from the raw sequence gives the concatenated sequence lines
+        proof fn lemma_raw_vs_lines(&self, b: Seq<u8>)
+            requires self.rwf(b), self.nlines() >= 1
+            ensures
+                [C13|lemma.fasta.raw_sequence_differs_from_lines_only_by_terminators] unwrap_lines(self.rawext_v(b), 0) == concat(self.lines_v(b)),
+        {
+            self.lemma_raw_from(b, 0);
+            assert(self.lines_v(b).subrange(0, self.nlines()) =~= self.lines_v(b));
+        }
+    }
+
 //@impl_open fasta::Record::head
     spec fn rwf(&self) -> bool;
     spec fn head_s(&self) -> Seq<u8>;
